@@ -569,6 +569,24 @@ def run(prog, rep, tier):
     for s_ in _sub.rules.get("R11.5", {}).get("samples", []):
         rep.examined(R35, str(s_)[:70], sample=s_)
 
+    # ---------------- R3.10 (lifted from C14 R14.10/R14.2): the bounds A and B themselves are the ones the user wrote
+    R310 = rep.rule("R3.10", "the window bounds are resolved from the arguments without losing sub-second digits or the has_time/has_tz completion (lifted from C14 R14.2, R14.10)")
+    import c14 as _c14
+    _sub14 = _Rep("C14", "quick", dict(rep.meta))
+    _sub14.finish = lambda *a, **k: 0
+    with _cl.redirect_stdout(_io.StringIO()):
+        _c14.run(prog, _sub14, "quick")
+    for (rid_, key_, what_, det_) in _sub14.violations:
+        if rid_ in ("R14.10", "R14.2"):
+            rep.violation(R310, key_.split("|", 1)[1] if "|" in key_ else key_, what_)
+    n310 = 0
+    for rid_ in ("R14.10", "R14.2"):
+        for k_ in _sub14.rules.get(rid_, {}).get("keys", []):
+            n310 += 1
+            rep.examined(R310, "%s|%s" % (rid_, str(k_)[:80]), sample={"rule": rid_, "instance": str(k_)[:120]})
+    if n310 < 40:
+        raise CheckerError("R3.10: only %d lifted C14 instances" % n310)
+
     # ------------------------------------------------------------ R3.8 the search functions classify through the window predicates only
     # The three searches for the first message at or after --dt-after (dispatcher, binary search for
     # plain files, linear search for streamed/compressed files) must agree on what "at or after" means.
@@ -647,6 +665,48 @@ def run(prog, rep, tier):
                     rep.violation(R37, "%s|%s|role" % (b_.path, last), "%s (line %d): %s() receives its bounds in the wrong roles (after-slot: %s, before-slot: %s)" % (b_.path.split("::")[-1], c.line, last, sorted(na), sorted(nb)))
     if n37 < 8:
         raise CheckerError("R3.7: only %d predicate call sites found (10 on the pinned tree)" % n37)
+
+    # ------------------------------------------------------------ R3.9 the window is applied to message datetimes, never to the file's modification time
+    # "Every message with A <= t <= B is printed": whether a file is searched at all must not be decided
+    # from its modification time (a copied, restored or touched file is older than its messages; a
+    # future-dated message is younger than any mtime).  No comparison or subtraction in the text-log
+    # processor may combine a window bound with a value derived from mtime().
+    R39 = rep.rule("R3.9", "no window bound is compared with the file's modification time")
+    n39 = 0
+    for p_ in sorted(prog.facts.bodies):
+        if not p_.startswith("s4lib::readers::syslogprocessor::SyslogProcessor::") or "_tests" in p_:
+            continue
+        sb_ = prog.body(p_)
+        mt = set()
+        for c in sb_.live_calls():
+            if c.d.split("::")[-1] in ("mtime", "systemtime_to_datetime", "modified"):
+                mt.add(c.bb)
+        if not mt:
+            continue
+        n39 += 1
+        hits = []
+        for c in sb_.live_calls():
+            last = (c.o or c.d).split("::")[-1]
+            if last not in ("signed_duration_since", "sub", "lt", "le", "gt", "ge", "cmp", "partial_cmp", "eq", "ne", "duration_since", "checked_sub_signed", "max", "min"):
+                continue
+            has_mt = has_bound = False
+            for a in c.args:
+                if a[0] == "k":
+                    continue
+                for x in sb_.origins(a, through_calls=("::deref", "Clone>::clone", "::clone", "::unwrap", "::as_ref")):
+                    if x[0] == "call" and (x[1] in mt or x[2].split("::")[-1] in ("mtime", "systemtime_to_datetime")):
+                        has_mt = True
+                nm_ = _names(sb_, a)
+                if any(("after" in q or "before" in q) and "after_or_before" not in q for q in nm_):
+                    has_bound = True
+            if has_mt and has_bound:
+                hits.append((last, c.line))
+        rep.examined(R39, p_, sample={"fn": p_.split("::")[-1], "uses_mtime": True, "bound_vs_mtime_operations": hits})
+        if hits:
+            rep.violation(R39, p_ + "|mtime-vs-bound", "%s (line %d): a window bound is combined with the file's modification time by %s(); a log that was copied, restored or touched is then skipped (or cut) "
+                          "although it holds messages inside the window - silently, exit status 0" % (p_.split("::")[-1], hits[0][1], hits[0][0]))
+    if n39 == 0:
+        raise CheckerError("R3.9: no SyslogProcessor method uses mtime (anchor missing)")
 
     # ------------------------------------------------------------ R3.6 the lower-bound search uses the ordering only
     # find_sysline_at_datetime_filter_binary_search must return the FIRST message at or after the bound.
